@@ -199,9 +199,10 @@ def ti_write_par(path, cfg):
         if cfg['defect'] != 'missinghmf':
             lines.append('epsilon 0.5')
     zcol = 'cz' if obj == 'star' else 'zfit'
-    lines += ['', 'typedef struct {', '    int plate;', '    int mjd;', '    int fiberid;', '    double %s;' % zcol, '} EIGENOBJ;', '']
-    for i in range(NSPEC):
-        lines.append('EIGENOBJ %d %d %d %s' % (300 + i, 51000 + i, i + 1, '0.1'))
+    if cfg['defect'] != 'noeigenobj':      # a truncated parameter file: every keyword, but no EIGENOBJ table
+        lines += ['', 'typedef struct {', '    int plate;', '    int mjd;', '    int fiberid;', '    double %s;' % zcol, '} EIGENOBJ;', '']
+        for i in range(NSPEC):
+            lines.append('EIGENOBJ %d %d %d %s' % (300 + i, 51000 + i, i + 1, '0.1'))
     with open(path, 'w') as f:
         f.write('\n'.join(lines) + '\n')
 
@@ -310,7 +311,7 @@ def ti_configs(tier):
         if not T and run2d != run1d:
             continue        # quick: natural failures from the both-set and both-unset states
         # natural failures (0 injected faults, but also swept with injected ones)
-        for defect in ('missingfile', 'missingkey', 'badvalue', 'missinghmf'):
+        for defect in ('missingfile', 'missingkey', 'badvalue', 'missinghmf', 'noeigenobj'):
             out.append({'ep': 'template_input', 'run2d': run2d, 'run1d': run1d, 'object': 'gal',
                         'method': 'hmf' if defect == 'missinghmf' else 'pca', 'dump': 'absent', 'flux': False, 'defect': defect})
         out.append({'ep': 'template_input', 'run2d': run2d, 'run1d': run1d, 'object': 'gal', 'method': 'bogus', 'dump': 'absent',
